@@ -35,7 +35,9 @@ def run(ctx):
     elif q:
         ctx.design("Files/FileSrvD.tla", "FileSrvD_quick.cfg", workers=W, timeout=600)
         ctx.design("Files/FileSrvD.tla", "FileSrvD_merge.cfg", workers=W, timeout=600, note="names that could be glued into an alias name")
+        ctx.design("Files/FileSrvD.tla", "FileSrvD_index.cfg", workers=W, timeout=600, note="directories whose index file is a symlink to outside / inside")
     else:
+        ctx.design("Files/FileSrvD.tla", "FileSrvD_index.cfg", workers=W, timeout=600, note="directories whose index file is a symlink to outside / inside")
         ctx.design("Files/FileSrvD.tla", "FileSrvD.cfg", workers=W, timeout=1500, heap="12g")
         ctx.design("Files/FileSrvD.tla", "FileSrvD_wide.cfg", workers=W, timeout=1500, heap="12g")
         ctx.design("Files/FileSrvD.tla", "FileSrvD_merge.cfg", workers=W, timeout=600, note="names that could be glued into an alias name")
@@ -66,6 +68,8 @@ def run(ctx):
         job("core4", ["enum", "core", 4, 0, 1, 5, 7, 6], 3)
         job("full2", ["enum", "full", 2, 0, 1] + ALL, 1)
         job("merge", ["enum", "merge", 5, 0, 1, 5], 1)
+        job("ix3", ["enum", "ix", 3, 0, 1] + ALL, 1)
+        job("ix4", ["enum", "ix", 4, 0, 1, 5, 7, 3], 1)
         job("rnd", ["rnd", 1500, 10, 0, 1] + ALL, 1)
     else:
         job("core4", ["enum", "core", 4, 0, 1] + ALL, 4)
@@ -74,6 +78,8 @@ def run(ctx):
         job("full3", ["enum", "full", 3, 0, 1] + ALL, 2)
         job("merge", ["enum", "merge", 6, 0, 1, 5], 1)
         job("merge4", ["enum", "merge", 5, 0, 1, 4, 7], 1)
+        job("ix4", ["enum", "ix", 4, 0, 1] + ALL, 1)
+        job("ix5", ["enum", "ix", 5, 0, 1, 5, 7, 3], 3)
         job("rnd", ["rnd", 20000, 14, 0, 1] + ALL, 4)
     NT = 6 if q else 12
     traces = shard.run_harness_jobs(ctx, exe, jobs, threads=NT)
